@@ -61,11 +61,18 @@ func (t *ClientTransport) Handshake() (hr *parser.HandshakeResponse, err error) 
 		t.url.Scheme = "ws"
 	}
 
+	// The dial options come from the client's configuration and are shared by every
+	// transport created from it (reconnects, upgrades), possibly at the same time:
+	// set the header on a copy.
+	var dialOptions websocket.DialOptions
+	if t.dialOptions != nil {
+		dialOptions = *t.dialOptions
+	}
 	if t.requestHeader != nil {
-		t.dialOptions.HTTPHeader = t.requestHeader.Header()
+		dialOptions.HTTPHeader = t.requestHeader.Header()
 	}
 
-	t.conn, _, err = websocket.Dial(context.Background(), t.url.String(), t.dialOptions)
+	t.conn, _, err = websocket.Dial(context.Background(), t.url.String(), &dialOptions)
 	if err != nil {
 		return
 	}
